@@ -144,13 +144,10 @@ func c10Case(cmdKinds [][]string, withConst bool, special string) *Case {
 			if constName == nil || t.A == nil || t.A.Class != ClsIdent {
 				return t.Val()
 			}
-			switch sameValue(x.C, t.A.Val, constName.Val) {
-			case 1:
+			if decideSame(x.C, t.A.Val, constName.Val) {
 				return JoinToks(constVal)
-			case 0:
-				return t.Val()
 			}
-			panic(interp.Inconclusive{Msg: "constant aliasing undecided on this path"})
+			return t.Val()
 		}
 		want := []interp.Value{cat(sname.Val, "::")}
 		for _, c := range cmds {
